@@ -457,7 +457,7 @@ def run_sweep(ctx):
 
 def run(ctx):
     run_sweep(ctx)
-    hyp_run(ctx, 'c16.calls', CASE, body(ctx), ctx.pick(400, 8000))
+    hyp_run(ctx, 'c16.calls', CASE, body(ctx), ctx.pick(400, 30000))
 
 
 def replay(ctx, check, case):
